@@ -7,6 +7,7 @@ import (
 	"regexp"
 	"sort"
 	"strings"
+	"sync"
 
 	"verif/harness/internal/base"
 )
@@ -17,6 +18,7 @@ type RenderOpts struct {
 	Ugly         *base.Rand // extra intra-line white space at token boundaries
 	RenameLocals bool       // v12 -> w12x
 	Spell        func(l *Line, u *Use) string // override the spelling of a type mention ("" = default)
+	NearMiss     *base.Rand                   // replace every annotation doc line by a near miss (C09)
 }
 
 var qualRe = regexp.MustCompile(`«([^»]+)»\.`)
@@ -41,6 +43,7 @@ func Render(p *Prog, o RenderOpts) map[string]string {
 	}
 	for _, pk := range p.Pkgs {
 		pk.Imports = map[string]bool{}
+		pk.AllImports = map[string]bool{}
 		for _, f := range pk.Files {
 			var body []string // lines after the import block
 			type pend struct {
@@ -128,8 +131,18 @@ func Render(p *Prog, o RenderOpts) map[string]string {
 				if n.LeadGap && len(n.Lead) > 0 && len(n.Doc) == 0 {
 					body = append(body, "")
 				}
+				detach := false
 				for _, d := range n.Doc {
+					if o.NearMiss != nil && strings.HasPrefix(d, " @") {
+						txt, det := nearMiss(d, o.NearMiss)
+						detach = detach || det
+						body = append(body, strings.Repeat("\t", indent)+txt)
+						continue
+					}
 					body = append(body, strings.Repeat("\t", indent)+"//"+d)
+				}
+				if detach {
+					body = append(body, "")
 				}
 				for i, l := range n.Pre {
 					in := indent
@@ -196,6 +209,12 @@ func Render(p *Prog, o RenderOpts) map[string]string {
 				pe.l.File, pe.l.No = f, offset+pe.idx+1
 			}
 			out[f.RelPath()] = strings.Join(lines, "\n") + "\n"
+			for path := range imports {
+				pk.AllImports[path] = true
+			}
+			for _, bi := range f.BlankImp {
+				pk.AllImports[bi] = true
+			}
 			if !f.IsTest() {
 				for path := range imports {
 					pk.Imports[path] = true
@@ -253,4 +272,49 @@ func uglify(line string, r *base.Rand) string {
 	}
 	b.WriteString(line[toks[len(toks)-1].end:])
 	return b.String()
+}
+
+// NearMissKinds counts how often each near-miss shape was rendered.
+var NearMissKinds = map[string]int{}
+var nearMissMu sync.Mutex
+
+// nearMiss turns a doc line " @keyword args" into a comment that must NOT be recognised as an annotation.
+func nearMiss(d string, r *base.Rand) (text string, detach bool) {
+	ann := strings.TrimPrefix(d, " ") // "@immutable", "@constructor New", ...
+	kw := ann
+	rest := ""
+	if i := strings.IndexAny(ann, " \t"); i >= 0 {
+		kw, rest = ann[:i], ann[i:]
+	}
+	kind := ""
+	switch r.Intn(12) {
+	case 0:
+		kind, text = "mid-sentence", "// this type follows the "+ann+" convention"
+	case 1:
+		kind, text = "block-comment", "/* "+ann+" */"
+	case 2:
+		kind, text = "capitalised", "// @"+strings.ToUpper(kw[1:2])+kw[2:]+rest
+	case 3:
+		kind, text = "upper-case", "// "+strings.ToUpper(kw)+rest
+	case 4:
+		kind, text = "longer-word", "// "+kw+"s"+rest
+	case 5:
+		kind, text = "blank-after-at", "// @ "+kw[1:]+rest
+	case 6:
+		kind, text = "dash-prefix", "// -"+ann
+	case 7:
+		kind, text = "commented-out", "// // "+ann
+	case 8:
+		kind, text = "triple-slash", "/// "+ann
+	case 9:
+		kind, text, detach = "detached-by-blank-line", "// "+ann, true
+	case 10:
+		kind, text = "label-prefix", "// note: "+ann
+	default:
+		kind, text = "no-at-sign", "// "+kw[1:]+rest
+	}
+	nearMissMu.Lock()
+	NearMissKinds[kind]++
+	nearMissMu.Unlock()
+	return
 }
